@@ -29,6 +29,7 @@ type CtxMon struct {
 	Freq      uint64 `json:"f,omitempty"` // frequency in force at LastStart
 	Timeout   int64 `json:"t,omitempty"`  // timeout in force at LastStart
 	MaxTotal  int64 `json:"m"`            // largest total ever in force
+	Inf       bool  `json:"i,omitempty"`  // a negative (unbounded) total was in force at some point
 }
 
 // Mon holds the history variables. It is part of the state identity.
@@ -151,6 +152,9 @@ func (m *Mon) Update(f MonFlags, sc *Scenario, pre *View, a Action, res *StepRes
 			pc := pre.Ctxs[id]
 			if c.RepeatedTotal > e.MaxTotal {
 				e.MaxTotal = c.RepeatedTotal
+			}
+			if c.RepeatedTotal < 0 {
+				e.Inf = true
 			}
 			if pc != nil && c.BatchCounter != pc.BatchCounter {
 				e.Batches += int64(c.BatchCounter) - int64(pc.BatchCounter)
